@@ -878,6 +878,28 @@ Theorem C15_alines_is_refl : forall ext rt,
   forall tr0, alines (rpipe ext rt fuel) ls (Some (e, tr0)) last = (Some (e', (tr0 ++ tr)%list), st).
 Proof. exact alines_refl. Qed.
 
+(** 3o. (round 9e) BLANK LINES inside indented flat texts: [skel] (hence flat_parsed) skips CMD pairs with empty
+    text as exp_loop does; [body_lines b] lists every line of the block, a blank line as the empty text; the
+    parse gives exactly the non-empty ones. *)
+Theorem C15_indented_blank_text_parsed : forall b ls, fragI_block b = true -> body_lines b = Some ls ->
+  parse_from l_grammar L_EXP (render_block b) = PFuel \/ flat_parsed (render_block b) (filter nonempty_l ls).
+Proof. exact indented_blank_text_parsed. Qed.
+
+Theorem C15_tab_ok_indented_blank : forall k b ls ft rt, fragI_block b = true -> body_lines b = Some ls ->
+  parse_from l_grammar L_EXP (render_block b) <> PFuel -> forallb ok_line (filter nonempty_l ls) = true ->
+  tab_ok ft rt -> tab_ok ((k, render_block b) :: ft) ((k, filter nonempty_l ls) :: rt).
+Proof. exact tab_ok_indented_blank. Qed.
+
+Definition bl_body : block :=
+  BCons (SCmd (S2 "  ") (S2 "in1")) (BCons (SBlank (S2 " ")) (BCons (SCmd it_tab (S2 "fail7")) (BCons (SBlank nil) BNil))).
+Example C15_indented_blank_nonvacuous : flat_parsed (render_block bl_body) [S2 "in1"; S2 "fail7"].
+Proof.
+  assert (Hf : fragI_block bl_body = true) by (vm_compute; reflexivity).
+  assert (Hb : body_lines bl_body = Some [S2 "in1"; nil; S2 "fail7"; nil]) by (vm_compute; reflexivity).
+  destruct (C15_indented_blank_text_parsed bl_body _ Hf Hb) as [F|P];
+    [vm_compute in F; discriminate F | exact P].
+Qed.
+
 (** The property, in full, and its refutation on the faithful model (what is left: a token
     holding a newline is not expanded -- first clause, stated for ALL tokens). *)
 Definition C15_full : Prop :=
@@ -954,6 +976,9 @@ Print Assumptions C15_sete_rest_of_body.
 Print Assumptions C15_sete_calls_trace.
 Print Assumptions C15_sete_calls_script.
 Print Assumptions C15_first_failure.
+Print Assumptions C15_indented_blank_text_parsed.
+Print Assumptions C15_tab_ok_indented_blank.
+Print Assumptions C15_indented_blank_nonvacuous.
 Print Assumptions C15_sete_andor_script.
 Print Assumptions C15_alines_is_refl.
 Print Assumptions C15_refl3_is_refl.
